@@ -25,7 +25,7 @@ import (
 	"github.com/flamego/flamego/verifharness/internal/rt"
 )
 
-const rule = "case = environment in {development, production, test} x Recovery placed as application middleware, group handler or first route handler x 0..2 recording middleware before it x optionally a handler that re-maps http.ResponseWriter to a plain embedding wrapper x 1..3 later handlers (route handlers; or the last one as the final action; or all of them as the not-found chain), each of the shape func(Context), func(ResponseWriter, *Request) or http.HandlerFunc and a program over {write a status, write body bytes, Next(), cancel the request context, panic(value) - from ordinary code, from a function whose source file cannot be read or from the last line of a source file that does not end with a newline -, require an unresolvable dependency, write with a registered before-function that panics, WriteHeader with a code the underlying writer rejects by panicking, a Hijack that fails} with panic values of kinds {string, error, runtime error, struct, http.ErrAbortHandler, custom error, integer, typed-nil error, slice, map, struct with a slice field}; GET or HEAD; the environment may change between construction and requests x a sequence of 1..4 requests mixing the panicking route and a healthy one. " +
+const rule = "case = environment in {development, production, test} x Recovery placed as application middleware, group handler or first route handler x 0..2 recording middleware before it x optionally a handler that re-maps http.ResponseWriter to a plain embedding wrapper x 1..3 later handlers (route handlers; or the last one as the final action; or all of them as the not-found chain), each of the shape func(Context), func(ResponseWriter, *Request) or http.HandlerFunc and a program over {write a status, write body bytes, Next(), cancel the request context, panic(value) - from ordinary code, from a function whose source file cannot be read or from the last line of a source file that does not end with a newline -, require an unresolvable dependency, write with a registered before-function that panics, WriteHeader with a code the underlying writer rejects by panicking, a Hijack that fails} with panic values of kinds {string, error, runtime error, struct, http.ErrAbortHandler, custom error, integer, typed-nil error, slice, map, struct with a slice field}; GET or HEAD, optionally with Accept or Connection/Upgrade request headers; the environment may change between construction and requests x a sequence of 1..4 requests mixing the panicking route and a healthy one. " +
 	"Oracle: nothing escapes ServeHTTP and every request returns (60 s watchdog); an interpreter of the handler programs says what had been sent before the panic: status = that status, or 500 if none; body = the earlier bytes followed by a tail that (development) shows the panic value, (otherwise) shows neither the value nor stack frames; every recording middleware logged its code after Next(); a healthy request answers exactly like on a fresh instance. " +
 	"non-trivial = a case with a panic after a write, or inside a nested Next(), or with a non-string value, or with a failed dependency resolution, or followed by a healthy request; distinct by case text"
 
@@ -69,6 +69,10 @@ type Case struct {
 	// "action" = the last one is the Flame's final action; "notfound" = they are
 	// the not-found chain (Recovery as application middleware only).
 	Site string `json:"site,omitempty"`
+	// ReqHdr: request headers a recovery might look at: "" none, "accept-json"
+	// (Accept: application/json), "upgrade" (Connection: Upgrade, Upgrade: websocket),
+	// "accept-html".
+	ReqHdr string `json:"request_headers,omitempty"`
 }
 
 // plainWriter is the usual embedding wrapper: http.ResponseWriter and nothing else.
@@ -271,6 +275,7 @@ func simulate(hs []H) (m *sim) {
 // ---- the application ---------------------------------------------------------------
 
 type app struct {
+	reqHdr     string
 	f          *flamego.Flame
 	seenStatus []int // Status() as read by each recording middleware after Next()
 	log        []string
@@ -278,7 +283,7 @@ type app struct {
 }
 
 func build(c Case) *app {
-	a := &app{f: flamego.NewWithLogger(io.Discard)}
+	a := &app{f: flamego.NewWithLogger(io.Discard), reqHdr: c.ReqHdr}
 	for k := 0; k < c.Outer; k++ {
 		k := k
 		a.f.Use(func(ctx flamego.Context) {
@@ -415,7 +420,17 @@ func (s strictSpy) Hijack() (net.Conn, *bufio.ReadWriter, error) {
 
 func serveM(a *app, method, path string) (r resp) {
 	spy := rt.NewSpy()
-	req := rt.NewRequest(method, path, nil)
+	hdr := http.Header{}
+	switch a.reqHdr {
+	case "accept-json":
+		hdr.Set("Accept", "application/json")
+	case "accept-html":
+		hdr.Set("Accept", "text/html,application/xhtml+xml;q=0.9,*/*;q=0.8")
+	case "upgrade":
+		hdr.Set("Connection", "Upgrade")
+		hdr.Set("Upgrade", "websocket")
+	}
+	req := rt.NewRequest(method, path, hdr)
 	ctx, cancel := gocontext.WithCancel(gocontext.Background())
 	defer cancel()
 	a.cancel = cancel
@@ -616,6 +631,7 @@ func genCase(t *rapid.T) Case {
 	}
 	c.Method = []string{"GET", "GET", "GET", "HEAD"}[rapid.IntRange(0, 3).Draw(t, "method")]
 	c.WrapWriter = rapid.IntRange(0, 4).Draw(t, "wrapwriter") == 0
+	c.ReqHdr = []string{"", "", "", "accept-json", "upgrade", "accept-html"}[rapid.IntRange(0, 5).Draw(t, "reqhdr")]
 	switch rapid.IntRange(0, 5).Draw(t, "site") {
 	case 0:
 		c.Site = "action"
